@@ -14,5 +14,6 @@ CONSTANTS
   ListAns = {}
   MaxItems = 1
   Layouts = {}
+  TableOnly = {"g1212"}
   OkRecomputed = FALSE
 INVARIANT InvReturnedWellFormed
